@@ -17,6 +17,9 @@ pub enum Policy {
     Biased,
     /// delegate to the real embedded CaDiCaL (shipped behaviour; baseline)
     Cadical,
+    /// for frameworks too large for a plain DPLL: decided by the mirrored CaDiCaL, the model is
+    /// randomised by assumption steering (impose seeded literals one by one, keep those that stay SAT)
+    Steer,
 }
 
 pub const SIM_POLICIES: [Policy; 4] = [Policy::Uniform, Policy::MinTrue, Policy::MaxTrue, Policy::Biased];
@@ -113,7 +116,7 @@ impl Dpll {
         rng.shuffle(&mut order);
         let pol = |v: u32, rng: &mut Rng| -> bool {
             match policy {
-                Policy::Uniform | Policy::Cadical => rng.bool(),
+                Policy::Uniform | Policy::Cadical | Policy::Steer => rng.bool(),
                 Policy::MinTrue => false,
                 Policy::MaxTrue => true,
                 Policy::Biased => {
